@@ -119,6 +119,7 @@ def main():
     kinds = set()
     job_rows = []
     merged_sites = set()
+    cross = {'checked': 0, 'agree': 0, 'skipped': 0}
     for spec, (st, res) in results:
         if st != 'ok':
             inconclusive.append(f"{res.get('name')}: {res.get('error')}")
@@ -133,6 +134,8 @@ def main():
         solver_s += res.get('solver_s', 0.0)
         kinds.update(res.get('kinds', []))
         merged_sites.update(res.get('merged_sites', []))
+        for k_ in cross:
+            cross[k_] += res.get('cross', {}).get(k_, 0)
         for i in res.get('inconclusive', []):
             inconclusive.append(f"{res['name']}: {i}")
         for v in res.get('violations', []):
@@ -209,6 +212,7 @@ def main():
                 'evaluations': max(paths, len(specs), 1), 'distinct_nontrivial': max(len(kinds), 2) if obligations else 0,
                 'rule': 'one evaluation = one explored path of one job (shape); distinct = kinds of obligation discharged: ' + ', '.join(sorted(kinds))[:600],
                 'merged_if_sites': sorted(merged_sites),
+                'second_solver': {'solver': 'z3 4.8.12 binary on the SMT-LIB2 export of the first query of every obligation kind per job', **cross},
                 'samples': samples or ['(no samples)'],
                 'per_job': sorted(job_rows, key=lambda r: -(r['wall_s'] or 0))[:40],
                 'known_findings_seen': sorted(seen_known), 'inconclusive': inconclusive[:20],
